@@ -546,12 +546,11 @@ async fn run_b(cfg: Cfg, fill: usize, steps: &[Step], drain: usize, caps: Option
                 // not a time answer (kiss, bad stratum/mode, duplicate, NAK): the statement neither
                 // demands nor forbids taking its cookies once; what is kept must still be a FIFO
                 // of the newest <= 8 in arrival order
-                if after == pushed && !cookies.is_empty() {
+                if after == before {
+                    out.extra_not_stored += 1;
+                } else if after == pushed {
                     out.extra_stored += 1;
                     out.evictions += ev;
-                    if std::env::var("GC_DEBUG").is_ok() { std::eprintln!("DBG stored {trace} poll {i} {what} acts={acts:?}"); }
-                } else if after == before {
-                    out.extra_not_stored += 1;
                 } else {
                     fail!("C13:stash-contents", "poll {i} {what} {}: stash holds {:?}, expected either unchanged {:?} or all delivered cookies appended {:?}", step_str(&step), short(&after), short(&before), short(&pushed));
                     break 'polls;
@@ -731,7 +730,7 @@ fn check() {
          length 7 / 10; B: NTS source (v4/v5, 256/512-bit keys) with initial fill 1..=8 x every sequence of 3 (quick) / 5 \
          polls (2 / 4 for 512-bit keys, 2 / 3 for the size sweep) whose answers range over {lost, real server's answer, harness-built \
          authenticated answer with k=0..=9 tagged cookies of 104 B; size sweep: k in {1,3,8,9} x {16,40,90,168,300,700} B}; \
-         kinds sweep: 2 (quick) / 3 polls over 43 choices = {lost} + {real server, time answer k in {1,3,9}, authenticated RATE / \
+         kinds sweep: 2 (quick) / 3 polls over 40 choices = {lost} + {real server, time answer k in {1,3,9}, authenticated RATE / \
          unknown kiss / stratum 17 / client-mode answer carrying k in {1,3} cookies, authenticated NTS NAK with 1 cookie} x {delivered \
          once, twice in a row, again after the next request}, followed by 10 normally answered polls so every held cookie is sent. \
          distinct non-trivial = A2 sequence that both overflows the ring and reads from an empty stash, or B history with at \
